@@ -152,7 +152,14 @@ def run(key):
         # the quantifier asks for a blur "that keeps the true class the largest": with these class sizes the mass a
         # class receives from another class exceeds the mass of its own observations
         return trivial('the blurred start does not keep the true class the largest contributor of every class')
-    init = A.partition_affiliation(labels, K, blur=b, lead=lead)
+    init = A.partition_affiliation(labels, K, blur=b if blur != 'blur_last' else 0.0, lead=lead)
+    if blur == 'blur_last':
+        # only the observations of the last class are blurred (0.6 own class, 0.4 spread over the others): the last
+        # class starts sharp (it sees its own observations only), the other classes start broad
+        init = np.array(init, dtype=float)
+        sel = labels == K - 1
+        init[..., :, sel] = 0.4 / (K - 1)
+        init[..., K - 1, sel] = 0.6
     if blur == 'onehot_int':
         init = init.astype(np.int64)        # the true partition as an integer 0/1 array
     if gk == 'f32':
@@ -270,7 +277,9 @@ def subchecks(tier, seed):
                                         continue
                                     if gk == 'f32' and pert == 0.0:
                                         continue     # exactly collinear classes are degenerate in single precision
-                                    for blur in ('onehot', 'blur', 'onehot_int'):
+                                    for blur in ('onehot', 'blur', 'onehot_int', 'blur_last'):
+                                        if blur == 'blur_last' and (gk != 'one' or pert not in (1e-3, 1e-2) or integ):
+                                            continue
                                         if blur == 'onehot_int' and (gk != 'one' or sk != 'equal' or pert != 1e-3 or integ):
                                             continue
                                         if pert == 1e-9 and blur != 'onehot':
@@ -290,6 +299,10 @@ def subchecks(tier, seed):
         for model in ('gmm', 'gcacgmm'):
             for its in (1, 2):
                 yield (model, 2, 2, 'rotated', 1e-2, 'huge', 'one', 'onehot', its, (-1,), seed)
+        for model in ('cacgmm', 'cwmm', 'vmfmm'):
+            for K, D in ((2, 2), (3, 4)):
+                yield (model, K, D, 'rotated', 1e-2, 'huge', 'phasor' if model != 'vmfmm' else 'one', 'onehot', 2,
+                       (-1,), seed)
     huge = Sub('fixed_point_many_observations',
                ('model', 'K', 'D', 'protos', 'pert', 'sizes', 'gains', 'blur', 'its', 'wca', 'seed'),
                huge_cases, run, bound=dict(N=40003))
